@@ -8,15 +8,17 @@ SRC = os.path.join(core.HARNESS, "c16_threads.cpp")
 
 
 def tsan_reports(err, repo):
-    """split stderr into report blocks; returns (covfie_reports, foreign_reports) as lists of (kind, signature)"""
+    """split stderr into report blocks; returns (covfie_reports, foreign_reports) as lists of (kind, signature).
+    A report is covfie's when any frame lies under <repo>/lib or names a covfie:: symbol."""
     mine, foreign = [], []
+    lib = os.path.join(repo, "lib")
     for blk in re.split(r"={18}\n", err):
         m = re.search(r"WARNING: ThreadSanitizer: ([^\n(]+)", blk)
         if not m:
             continue
-        frames = re.findall(r"#\d+ (\S+) (\S+?):\d+", blk)
-        sig = "|".join(sorted(set(os.path.basename(f[1]) + ":" + f[0].split("(")[0][:40] for f in frames if "/lib/" in f[1] or "harness" in f[1])))[:300]
-        in_covfie = any(os.path.join(repo, "lib") in f[1] for f in frames)
+        paths = re.findall(r"(/[^\s:()]+\.(?:hpp|cpp|h)):(\d+)", blk)
+        in_covfie = any(p.startswith(lib) for p, _ in paths) or "covfie::" in blk
+        sig = "|".join(sorted(set("%s:%s" % (os.path.basename(p), ln) for p, ln in paths if p.startswith(lib))))[:300] or "covfie-symbol"
         (mine if in_covfie else foreign).append((m.group(1).strip(), sig))
     return mine, foreign
 
@@ -54,6 +56,8 @@ def run(ctx):
             r.rc = 0 if r.done else r.rc
             r.err = ""
         ctx.absorb(r, shard=s["name"], count_nt=s.get("primary", True))
+    if foreign:
+        ctx.harness_errors.append("%d ThreadSanitizer report(s) without any covfie frame: the harness itself is suspect, the run is inconclusive" % foreign)
     ctx.stats["tsan_reports_with_covfie_frames"] = covfie_reports
     ctx.stats["tsan_foreign_reports"] = foreign
     ctx.total_builds, ctx.cached_builds, ctx.compile_secs = len(builds), sum(b.cached for b in builds), round(sum(b.secs for b in builds), 1)
